@@ -40,8 +40,65 @@ INC_NAMES = ["..", "../..", "room/../..", "x/..//../outside.txt", "x/..//../../e
              "../a/a", "a/", ".//../outside.txt", "../../outside.txt", "a/../../outside.txt", "/..", "/../outside.txt"]
 INH_NAMES = ["/d/obj", "d/obj.c", "../x", "/a/a", "aa", "/nonexist", "//d/obj", "/d//obj", "/d/../d/obj", "a", "/..",
              "../../x", "/d/obj#1", "."]
+BIN_NAMES = ["/d/b1", "/a/aa/b2", "b3", "/d/sub/b4.c", "/d//b5", "../b6", "/d/../b7", "/d/obj", "/new/dir/deep/b8", "/d/./b9",
+             "/d/b#10", "/..", "/d/sub/..b11", "/d/b12.c.c", "//d/b13", "/" + "d/" * 20 + "b14", "/d/" + "n" * 200]
 COMPS = [".", "..", "...", "a", "aa", "b.c", "", ".hidden", "x#y", "..a", "a..", "d", "f.txt", "sub", "obj.c", "save.o",
          "longname-0123456789", "#", "a.c.c", "*"]
+
+
+# get_dir (path, -1) / stat (path, -1): directories of the fixture only (the mudlib root also holds the other
+# properties' files), listings and patterns
+GD1 = ["/d", "/d/", "/d/.", "/d/*", "/d/*.c", "/d/?.txt", "/d/f*", "/d/sub", "/d/sub/", "/d/sub/*", "/a/", "/a/a*", "/a/aa/",
+       "/a/*", "/d/nofile", "/d/no/deep/*", "/d/f.txt", "/../*", "/d/\\f.txt", "/d/*/", "/d//", "/d/x*", "/d/.*", "/d/??*",
+       "/d/*b*", "/a/a?", "/d/sub/.*"]
+EFUN1X = ["get_dir1", "stat1"]
+
+
+def pad(n, head="/d", tail="sub"):
+    """an absolute LPC path whose approved form (without the leading slash) is exactly n characters long and names
+    head/tail of the fixture: the padding are repeated slashes (a legal path; no component exceeds NAME_MAX)"""
+    k = n - (len(head) - 1) - len(tail)
+    return head + "/" * max(k, 1) + tail
+
+
+def long_cases():
+    """boundary sizes of the C path buffers: MAX_PATH_LEN = 1024 (get_dir), 1281 = sizeof temppath / newfrom / newto,
+    MAXFNAME = 256 (ed)"""
+    L = []
+    gd = []
+    for n in (1023, 1024, 1025, 1026, 1279, 1280, 1281, 1282, 1400):
+        for tail in ("sub", "sub/", "f.txt", "*", "nofile", "sub/.", "x/secret"):
+            gd.append(pad(n, "/d", tail))
+    L.append(("long-get_dir", ["fx get_dir " + br(p_) for p_ in gd]))
+    L.append(("long-get_dir1", ["fx get_dir1 " + br(p_) for p_ in gd]))
+    L.append(("long-stat1", ["fx stat1 " + br(p_) for p_ in gd[::3]]))
+    rn = []
+    for n in (1279, 1280, 1281, 1282, 1300, 2000):
+        rn.append((pad(n, "/d", "sub/"), "/d/new"))            # existing directory, trailing slash stripped
+        rn.append((pad(n, "/d", "sub//"), "/d/new"))
+        rn.append(("/" + "a" * (n - 1) + "/", "/d/new"))        # nothing exists: the copy happens all the same
+        rn.append((pad(n, "/d", "sub"), "/d/new"))              # no trailing slash: no copy
+    for n in (1270, 1274, 1275, 1276, 1280, 1281, 1300):
+        rn.append(("/d/f.txt", pad(n, "/d", "sub")))             # into a directory: newto = to + "/" + "f.txt"
+        rn.append(("/d/f.txt", pad(n, "/d", "sub/")))
+    for e in ("rename", "link", "cp"):
+        L.append(("long-" + e, ["fx %s %s %s" % (e, br(a), br(b)) for a, b in rn]))
+    one = []
+    for n in (255, 256, 1024, 1025, 1281, 3000):
+        one += [pad(n, "/d", "f.txt"), pad(n, "/d", "new")]
+    for e in ("read_file", "write_file", "rm", "mkdir", "file_size", "save_object", "restore_object", "tail"):
+        L.append(("long-" + e, ["fx %s %s" % (e, br(p_)) for p_ in one]))
+    es = []
+    for n in (253, 254, 255, 256, 257, 300):
+        f_ = pad(n, "/d", "f.txt")
+        o_ = pad(n, "/d", "out")
+        rel = pad(n - 2, "sub", "n")                              # relative: the master prepends "/d/"
+        es.append("es %s a:x,w,f,W,x" % br(f_))
+        es.append("es [/d/f.txt] a:x,w:%s,e:%s,r:%s,f:%s,W:%s,f,w,x" % (o_, o_, o_, o_, o_))
+        es.append("es [/d/f.txt] a:x,w:%s,r:%s,f:%s,f,w,Q" % (rel, rel, rel))
+        es.append("es %s w,a:y,w,x" % br(pad(n, "/d", "nofile")))
+    L.append(("long-ed", es))
+    return L
 
 
 def br(s):
@@ -56,7 +113,7 @@ def pl(pol):
 class C15(Prop):
     id = "C15"
     title = "File access is confined to the mudlib and always mediated by the master"
-    lean_modules = ["NV.C15.Props", "NV.C15.PropsSys", "NV.C15.Negative", "NV.C15.Sites", "NV.C15.Witness"]
+    lean_modules = ["NV.C15.Props", "NV.C15.PropsSys", "NV.C15.PropsLen", "NV.C15.Negative", "NV.C15.Sites", "NV.C15.Witness"]
     theorems = ["NV.C15.legalPath_eq_spec", "NV.C15.legal_path_spec", "NV.C15.legal_path_secure",
                 "NV.C15.legal_path_safe", "NV.C15.check_valid_path_eq_spec", "NV.C15.check_valid_path_sound",
                 "NV.C15.check_valid_path_denied", "NV.C15.strip_name_relative", "NV.C15.load_open_confined",
@@ -69,7 +126,15 @@ class C15(Prop):
                 "NV.C15.efun_segOk", "NV.C15.fold_ok", "NV.C15.check_valid_path_error_fails_closed",
                 "NV.C15.check_valid_path_absent_or_odd_approves", "NV.C15.mediation_propagates_errors", "NV.C15.cvp_call_table", "NV.C15.legal_path_literals",
                 "NV.C15.save_tmp_format",
-                "NV.C15.mediated_sites", "NV.C15.inventory_covers_efuns", "NV.C15.efun_surface_modelled"]
+                "NV.C15.mediated_sites", "NV.C15.inventory_covers_efuns", "NV.C15.efun_surface_modelled",
+                "NV.C15.ext_callees_classified", "NV.C15.fs_callees_cover", "NV.C15.path_function_literals",
+                "NV.C15.efun_libc_table", "NV.C15.binary_model_satisfies_spec", "NV.C15.history_satisfies_spec", "NV.C15.judge_il_model",
+                "NV.C15.include_path_confined_any_config",
+                "NV.C15.buffer_sizes", "NV.C15.buffer_guards_present", "NV.C15.getdir_path_not_truncated",
+                "NV.C15.getdir_entry_fits", "NV.C15.getdir_long_path_refused", "NV.C15.ed_getfn_exact",
+                "NV.C15.rename_newfrom_fits", "NV.C15.rename_copy_fits", "NV.C15.segOk_entryStats", "NV.C15.segOk_move",
+                "NV.C15.segOk_cpTail", "NV.C15.symlinks_confined", "NV.C15.compsSafe_never_climbs",
+                "NV.C15.link_creates_safe_targets"]
     witness_theorems = ["NV.C15.include_normaliser_not_confined", "NV.C15.include_normaliser_trailing_dotdot",
                         "NV.C15.include_normaliser_slash_quirk", "NV.C15.include_unguarded_escapes",
                         "NV.C15.include_unguarded_escapes_dotdot", "NV.C15.include_empty_dir_absolute",
@@ -82,37 +147,56 @@ class C15(Prop):
     thorough_n = 1500
     search_n = 300
     design_ref = "5/C15"
-    technique = ("Lean 4 proof (structural induction over all strings) + translator-generated file-system call-site "
-                 "inventory (clang AST) decided in Lean + unit- and system-style model/implementation correspondence "
-                 "with interposed libc")
-    level_text = ("Lean 4 theorems, for ALL strings, about an executable model of legal_path / check_valid_path / "
-                  "strip_name / inc_lexically_normal+inc_open / load_object name handling: legal_path accepts exactly the "
-                  "relative paths without '#', without a '..' component and with '.' only last; every path returned by "
-                  "check_valid_path, opened by load_object or by #include is relative and free of '..'. The inventory of "
-                  "every libc file call in lib/efuns, lib/lpc/object.c, src/simulate.c, lib/lpc/lex.c, binaries.c is "
-                  "regenerated from the clang AST on every run and a Lean `decide` shows each path argument flows from "
-                  "check_valid_path / legal_path / inc_open or is on a justified allow-list. The model is tied to the "
-                  "source by an exhaustive differential run of the real functions over {a . / #}^<=7 (quick) / <=9 "
-                  "(thorough) and by system-style runs of every file efun x path set x master policy with libc interposed; "
-                  "the Lean oracle judges every implementation trace")
+    technique = ("Lean 4 proof (structural induction over all strings; segment invariants over structured events) about "
+                 "executable models of the path filter and of every file efun incl. their C buffer lengths + translator-"
+                 "generated tables (clang AST call-site inventory, check_valid_path call table, literal fingerprints, "
+                 "buffer sizes and length guards, external callee list) decided in Lean + unit- and system-style "
+                 "model/implementation correspondence with libc interposed")
+    level_text = ("Lean 4 theorems, for ALL strings / policies / file-system contents, about an executable model of legal_path, "
+                  "check_valid_path, strip_name, inc_lexically_normal+inc_open, load_object name handling and of the 24 file "
+                  "efun entry points (incl. get_dir/stat with flag -1, rename/link/cp into directories, save/restore_object, "
+                  "the ed efun and its file commands): legal_path accepts exactly the relative paths without '#', without a "
+                  "'..' component and with '.' only last; every path returned by check_valid_path, opened by load_object or "
+                  "#include is relative and free of '..'; the oracle accepts the model trace of every efun call and editing "
+                  "session (model_satisfies_spec: each libc call is preceded by an approval of the right kind of exactly "
+                  "that path or a listed derivation of it); no path is cut after its approval and every path copy fits its C "
+                  "buffer (sizes and guards regenerated from the source); symbolic links created by link() have safe targets "
+                  "and expansion through such links stays confined. Regenerated on every run and decided in Lean: the "
+                  "inventory of every libc file call in lib/efuns, lib/lpc/object.c, src/simulate.c, lib/lpc/lex.c, "
+                  "binaries.c (each path argument flows from check_valid_path / a PRECEDING legal_path / inc_open or is on a "
+                  "justified allow-list), the libc function each function calls, every check_valid_path call's operation and "
+                  "write flag, the literals of 5 string functions, buffer sizes / guard expressions, and the list of external "
+                  "char*-taking callees (fail closed). The model is tied to the source by an exhaustive differential run of "
+                  "the real functions over {a . / #}^<=7 (quick) / <=9 (thorough) and by system-style runs of every file "
+                  "efun x path set (incl. lengths at the buffer boundaries) x master policy with libc interposed; the Lean "
+                  "oracle judges every implementation trace")
     level_note = ("trusted: Lean kernel; tools/c15_sites.py (clang AST walk; 'flows syntactically' as defined in its "
-                  "docstring, no dominance analysis); the correspondence harness (agreement only on generated inputs); "
-                  "symlinks inside the mudlib, the ed efun (needs an interactive user) and SaveBinaryDir are not exercised")
-    rule = ("cases = corpus + known-finding inputs + boundary (every file efun x curated path set x 9 master policies; "
-            "#include / inherit / load_object names) + EXHAUSTIVE batches of all strings over {a . / #} up to length 7 "
-            "(quick) / 9 (thorough) through legal_path, check_valid_path (allow, echo), strip_name and the include "
-            "normaliser (3 including files) + seeded random long paths and random efun calls; one batch case carries up "
-            "to 4096 strings; master policies: deny, allow, echo, fixed (legal / illegal / absolute / empty), raise, raiseon, "
-            "odd return types, read-only, write-only, per-path read-only, and a master without valid_read/valid_write; "
-            "editing sessions (ed + a/e/E/f/r/w/W/x/q/Q with and without names); every branch of the efun models is hit "
-            "(evidence histogram.branches); a case is non-trivial when its trace has >= 2 lines; distinct = distinct canonical trace")
-    not_covered = ["symbolic links inside the mudlib (link() creates them; resolution is the kernel's)",
-                   "the ed efun is not run (needs an interactive user); its fopen sites are covered by the inventory only",
-                   "SaveBinaryDir / #pragma save_binary (binaries.c) is inventoried but not exercised",
-                   "get_dir(path, -1) per-entry stat calls (readdir order) are not exercised",
-                   "Windows branches (':' test of legal_path, O_TEXT) are not modelled",
-                   "paths longer than the C buffers (MAX_PATH_LEN in get_dir/do_rename, buf[1024] in handle_include) "
-                   "are not generated; see notes/C15.md observation O-3"]
+                  "docstring: textual precedence of the legal_path guard, no path-sensitive dominance); props/c15.py "
+                  "gen_buffers (regex over declarations and guard texts); the correspondence harness (agreement only on "
+                  "generated inputs); saved binaries (SaveBinaryDir, #pragma save_binary) are OBSERVED only: the harness "
+                  "prints libc calls on unsafe paths and whether the binary exists, the call sequence of binaries.c is not "
+                  "modelled; symbolic links are not followed in a run (theorem symlinks_confined states what is promised)")
+    rule = ("cases = corpus + known-finding inputs (incl. the witnesses of the 13 repaired defects) + boundary (every file "
+            "efun x curated path set x master policies; get_dir/stat with flag -1 over listings and wildcard patterns; paths "
+            "of 1023..1026 / 1279..1282 / 1400 / 2000 characters through get_dir, rename, link, cp and the one-path efuns; "
+            "editor file names of 253..257 / 300 characters; read-then-write sequences; #include / inherit / load_object "
+            "names; #pragma save_binary objects with SaveBinaryDir) + EXHAUSTIVE batches of all strings over {a . / #} up "
+            "to length 7 (quick) / 9 (thorough) through legal_path, check_valid_path (allow, echo), strip_name and the "
+            "include normaliser (3 including files) + seeded random long paths, efun calls, editing sessions and object "
+            "names; one batch case carries up to 4096 strings; master policies: deny, allow, echo, fixed (legal / illegal / "
+            "absolute / empty / longer than the buffers), raise, raiseon, odd return types, read-only, write-only, per-path "
+            "read-only, and a master without valid_read/valid_write; every branch of the efun models is hit (evidence "
+            "histogram.branches); a case is non-trivial when its trace has >= 2 lines; distinct = distinct canonical trace")
+    not_covered = ["symbolic links are not FOLLOWED in a run (link() targets are judged; symlinks_confined is the theorem); "
+                   "links placed in the mudlib by the administrator are outside the statement",
+                   "SaveBinaryDir / #pragma save_binary (binaries.c): observed (unsafe paths, binary exists) but its call "
+                   "sequence is not modelled and not judged for mediation (no master consultation exists there)",
+                   "do_move's EXDEV fallback (copy + unlink) and save_ed_buffer (net-dead editor) are inventoried, not executed",
+                   "Windows branches (':' test of legal_path, O_TEXT, FindFirstFile) are not compiled here",
+                   "handle_include's buf[1024] / macro includes (C02) and log file names (lib/logger, configuration) are not "
+                   "part of this check",
+                   "listing the mudlib ROOT with flag -1 is compared only for the fixture's entries (the root holds the "
+                   "framework's own files)"]
     trusted = ["tools/c15_sites.py (call-site inventory translator)"]
 
     # ---- A: generated table ---------------------------------------------------
@@ -124,6 +208,7 @@ class C15(Prop):
         if not m:
             raise X.TieBroken("const:INC_BUF_SIZE", "lib/lpc/lex.c no longer defines INC_BUF_SIZE")
         head = "/-- lib/lpc/lex.c: `#define INC_BUF_SIZE` -/\ndef incBufSize : Nat := %s\n\n" % m.group(1)
+        head += self.gen_buffers()
         try:
             res = c15_sites.analyze(E.REPO, bdir, E.include_flags(bdir))
         except c15_sites.SitesError as e:
@@ -137,8 +222,106 @@ class C15(Prop):
                               "C15 harness / model does not exercise them" % missing)
         return head + c15_sites.render(res)
 
+    def gen_buffers(self):
+        """sizes of the C path buffers and the limits they are guarded with, read from the working tree:
+        macros (`#define X <int>`), `char name[expr]` declarations inside the named function (expr = sum of
+        macros / integers) and the guard expressions themselves (the exact source text of the comparison must be
+        present in the function: a changed operator or operand breaks the tie, the search stage then looks for an
+        input at the boundary sizes)."""
+        import re
+
+        def src(rel):
+            try:
+                return open(os.path.join(E.REPO, rel)).read()
+            except OSError:
+                raise X.TieBroken("buffers:" + rel, "cannot read " + rel)
+
+        def macro(text, rel, name):
+            m = re.search(r"^#define\s+%s\s+(\d+)\b" % name, text, re.M)
+            if not m:
+                raise X.TieBroken("const:" + name, "%s no longer defines %s as an integer" % (rel, name))
+            return int(m.group(1))
+
+        def body(text, rel, fn):
+            m = re.search(r"\b%s\s*\([^();{}]*\)\s*\{" % fn, text)
+            if not m:
+                raise X.TieBroken("buffers:" + fn, "function %s not found in %s" % (fn, rel))
+            e = re.search(r"^\}", text[m.end():], re.M)
+            return text[m.end(): m.end() + (e.start() if e else 0)]
+
+        def size(btext, fn, var, env):
+            ms = re.findall(r"\bchar\s+%s\s*\[([^\]]+)\]" % var, btext)
+            if not ms:
+                raise X.TieBroken("buffers:%s.%s" % (fn, var), "declaration `char %s[..]` not found in %s" % (var, fn))
+            vals = set()
+            for ex in ms:
+                tot = 0
+                for t in ex.split("+"):
+                    t = t.strip()
+                    if t.isdigit():
+                        tot += int(t)
+                    elif t in env:
+                        tot += env[t]
+                    else:
+                        raise X.TieBroken("buffers:%s.%s" % (fn, var), "cannot evaluate the size `%s`" % ex)
+                vals.add(tot)
+            if len(vals) != 1:
+                raise X.TieBroken("buffers:%s.%s" % (fn, var), "several declarations with different sizes %s" % sorted(vals))
+            return vals.pop()
+
+        fu = src("lib/efuns/file_utils.c")
+        edc = src("lib/efuns/ed.c")
+        edh = src("lib/efuns/ed.h")
+        env = {"MAX_PATH_LEN": macro(fu, "file_utils.c", "MAX_PATH_LEN"),
+               "MAX_FNAME_SIZE": macro(fu, "file_utils.c", "MAX_FNAME_SIZE"),
+               "MAXFNAME": macro(edh, "ed.h", "MAXFNAME")}
+        bn = src("lib/lpc/program/binaries.c")
+        b_sb, b_lb = body(bn, "binaries.c", "save_binary"), body(bn, "binaries.c", "load_binary")
+        b_gd, b_rn, b_cp, b_fn, b_es = (body(fu, "file_utils.c", "get_dir"), body(fu, "file_utils.c", "do_rename"),
+                                        body(fu, "file_utils.c", "copy_file"), body(edc, "ed.c", "getfn"),
+                                        body(edc, "ed.c", "ed_start"))
+        defs = [("maxPathLen", env["MAX_PATH_LEN"], "file_utils.c: `#define MAX_PATH_LEN`"),
+                ("maxFnameSize", env["MAX_FNAME_SIZE"], "file_utils.c: `#define MAX_FNAME_SIZE`"),
+                ("edMaxFname", env["MAXFNAME"], "ed.h: `#define MAXFNAME` (= `sizeof file` of getfn, `sizeof P_FNAME`)"),
+                ("getDirTemppathSize", size(b_gd, "get_dir", "temppath", env), "get_dir: `char temppath[..]`"),
+                ("getDirRegexppathSize", size(b_gd, "get_dir", "regexppath", env), "get_dir: `char regexppath[..]`"),
+                ("renameNewfromSize", size(b_rn, "do_rename", "newfrom", env), "do_rename: `char newfrom[..]`"),
+                ("renameNewtoSize", size(b_rn, "do_rename", "newto", env), "do_rename: `char newto[..]`"),
+                ("cpNewtoSize", size(b_cp, "copy_file", "newto", env), "copy_file: `char newto[..]`"),
+                ("edFileSize", size(b_fn, "getfn", "file", env), "getfn: `static char file[..]`"),
+                ("saveBinaryNameSize", size(b_sb, "save_binary", "file_name_buf", env), "save_binary: `char file_name_buf[..]`"),
+                ("loadBinaryNameSize", size(b_lb, "load_binary", "file_name_buf", env),
+                 "load_binary: `char file_name_buf[..]` (two names: each gets one half)")]
+        # the guards, as source text (whitespace-insensitive); name -> (function body, text)
+        guards = [("get_dir", b_gd, "strlen (path) > MAX_PATH_LEN"),
+                  ("get_dir", b_gd, "strncpy (temppath, path, MAX_FNAME_SIZE + MAX_PATH_LEN + 1)"),
+                  ("get_dir", b_gd, 'if (strcmp (de->d_name, ".") == 0 || strcmp (de->d_name, "..") == 0)'),
+                  ("do_rename", b_rn, "n >= (ptrdiff_t) sizeof (newfrom)"),
+                  ("do_rename", b_rn, 'snprintf (newto, sizeof(newto), "%s/%s", to, cp) >= (int)sizeof(newto)'),
+                  ("copy_file", b_cp, 'snprintf (newto, sizeof (newto), "%s/%s", to, cp) >= (int) sizeof (newto)'),
+                  ("getfn", b_fn, "strlen (P_FNAME) + 1 >= MAXFNAME"),
+                  ("getfn", b_fn, "cp >= file + MAXFNAME - 1"),
+                  ("getfn", b_fn, "strlen (file2) >= MAXFNAME"),
+                  ("getfn", b_fn, "strncpy (file, ret->u.string, sizeof file - 1)"),
+                  ("ed_start", b_es, "strncpy (P_FNAME, file_arg, MAXFNAME - 1)"),
+                  ("save_binary", b_sb, "strlen (CONFIG_STR (__SAVE_BINARIES_DIR__)) + strlen (prog->name) + 2 > sizeof (file_name_buf)"),
+                  ("load_binary", b_lb, "strlen (CONFIG_STR (__SAVE_BINARIES_DIR__)) + strlen (name) + 2 > sizeof (file_name_buf) / 2"),
+                  ("load_binary", b_lb, "strlen (CONFIG_STR (__SAVE_BINARIES_DIR__)) + strlen (buf) + 2 > sizeof (file_name_buf) / 2")]
+        squeeze = lambda t: re.sub(r"\s+", "", t)
+        rows = []
+        for fn, btext, g in guards:
+            n = squeeze(btext).count(squeeze(g))
+            rows.append((fn, g, n))
+        out = "".join("/-- %s -/\ndef %s : Nat := %d\n\n" % (doc, nm, v) for nm, v, doc in defs)
+        out += ("/-- length guards of the path buffers found in the source (function, source text, occurrences) -/\n"
+                "def lengthGuards : List (String × String × Nat) := [\n" +
+                ",\n".join("  (%s, %s, %d)" % ('"%s"' % f,
+                                                '"%s"' % g.replace("\\", "\\\\").replace('"', '\\"'), n)
+                           for f, g, n in rows) + "]\n\n")
+        return out
+
     def exercised(self):
-        return EFUN1 + EFUN2 + EFUNS + ["ed"]
+        return EFUN1 + EFUN2 + EFUNS + ["ed"]      # get_dir1 / stat1 are f_get_dir / f_stat with the flag -1
 
     def extra_checks(self, ctx, tier, rng):
         """run-time side of `inventory_covers_efuns`: each efun of the surface was really called in this run and its
@@ -176,6 +359,8 @@ class C15(Prop):
 
     def run_impl(self, ctx, cases):
         self.fresh_mudlib(ctx)
+        binc = [c for c in cases if c.lines and c.lines[0] == "binaries on"]
+        cases = [c for c in cases if not (c.lines and c.lines[0] == "binaries on")]
         normal = [c for c in cases if not (c.lines and c.lines[0] == "master absent")]
         absent = [c for c in cases if c.lines and c.lines[0] == "master absent"]
         res = E.run_harness(self.exe, self.conf, normal, ctx.rundir, args=("--timeout", "120")) if normal else {}
@@ -185,6 +370,12 @@ class C15(Prop):
             conf2 = self.conf + ".absent"
             open(conf2, "w").write(open(self.conf).read().replace("/c15/master.c", "/c15/master_absent.c"))
             res.update(E.run_harness(self.exe, conf2, absent, ctx.rundir, args=("--timeout", "120")))
+        if binc:
+            # third harness process: SaveBinaryDir configured (#pragma save_binary is honoured)
+            self.fresh_mudlib(ctx)
+            conf3 = self.conf + ".bin"
+            open(conf3, "w").write(open(self.conf).read() + "SaveBinaryDir\t/bin\n")
+            res.update(E.run_harness(self.exe, conf3, binc, ctx.rundir, args=("--timeout", "120")))
         if len(cases) > 50:          # the main evaluation (not a shrink / replay round)
             touched = {}
             for lines in res.values():
@@ -210,7 +401,9 @@ class C15(Prop):
                                                  "fixed=[//abs]", "fixed=[/]"]
             for s in ["/d/f", "", "/", "//etc", "/../x", "d/./f", "/d/."]] +
            ["usn1 " + br(s) for s in ["//a/b.c.c", "a//b", ".c", "x.c", "/", "", "a.c.cc", "/.c.c", "abc"]] +
-           ["uinc1 %s %s" % (br(b), br(n)) for b in INC_BASES for n in INC_NAMES])
+           ["uinc1 %s %s" % (br(b), br(n)) for b in INC_BASES for n in INC_NAMES] +
+           ["uil1 " + br(l) for l in ["/include", "/include:/", "/", ":", "::", "/a:/b:/c", "/..:/ok", "a/../b:x", "//abs:/d",
+                                      "/include:", ":/include", "/a#b:/c", "/./x:/y/.", "x" * 300 + ":/y", "/include:/sys:/d/sub"]])
         for pol in POL_FULL + POL_FEW + POL_ERR + POL_KIND + ["ABSENT"]:
             mk("edsession-%s" % pol, [pl(pol)] + ["es %s %s" % (br(f), c) for f, c in SESSIONS])
             paths = P1 if pol in POL_FULL else ["/d/f.txt", "/d/sub", "/../outside.txt", "", "/d/nofile"]
@@ -223,10 +416,28 @@ class C15(Prop):
             mk("ed-%s" % pol, [pl(pol)] + ["fx ed %s %s" % (br(a), br(b)) for a, b in PED])
             for e in EFUN2:
                 mk("%s-%s" % (e, pol), [pl(pol)] + ["fx %s %s %s" % (e, br(a), br(b)) for a, b in pairs])
+        for pol in POL_FULL + POL_FEW + ["ro", "wo", "raise", "odd=[neg]", "ABSENT"]:
+            for e in EFUN1X:
+                mk("%s-%s" % (e, pol), [pl(pol)] + ["fx %s %s" % (e, br(p)) for p in GD1])
+        for name, lines in long_cases():
+            for pol in ["allow", "echo", "fixed=" + br(pad(300, "/d", "f.txt")), "fixed=" + br(pad(1300, "/d", "sub/")), "ABSENT"]:
+                if pol.startswith("fixed") and name not in ("long-ed", "long-get_dir1", "long-rename", "long-cp"):
+                    continue
+                mk("%s-%s" % (name, pol[:12]), [pl(pol)] + (lines if pol in ("allow", "echo") else lines[::2]))
+        # the same object, the same path, first read then written (an approval must not be remembered across calls)
+        mk("seq-read-then-write", ["policy ro", "fx read_file [/d/f.txt]", "fx write_file [/d/f.txt]", "fx file_size [/d/sub]",
+                                   "fx mkdir [/d/sub]", "fx rmdir [/d/sub]", "fx read_file [/d/f.txt]", "fx rm [/d/f.txt]",
+                                   "fx get_dir [/d/sub]", "fx rename [/d/sub] [/d/sub]", "policy ropath=[/d/f.txt]",
+                                   "fx read_bytes [/d/f.txt]", "fx write_bytes [/d/f.txt]", "fx cp [/d/f.txt] [/d/f.txt]",
+                                   "fx restore_object [/d/f.txt.o]", "fx save_object [/d/f.txt.o]", "policy allow",
+                                   "fx read_file [/d/f.txt]", "policy deny", "fx read_file [/d/f.txt]", "fx write_file [/d/f.txt]"])
         mk("include", ["inc %s %s" % (br(b), br(n)) for b in INC_BASES for n in INC_NAMES])
+        mk("include-angle", ["inca %s %s" % (br(b), br(n)) for b in INC_BASES[1:] for n in INC_NAMES if "//" not in n])   # `//` starts a comment there
+        mk("include-macro", ["incm %s %s" % (br(b), br(n)) for b in INC_BASES[:2] for n in INC_NAMES])
         for i, n in enumerate(INH_NAMES):
             mk("inherit-%d" % i, ["inh [t/y.c] " + br(n)])
         mk("load", ["ld " + br(n) for n in INH_NAMES + ["/a/a.c", "d/obj.c.c", "/t/none", "a/"]])
+        mk("binaries", ["binaries on"] + ["ldb " + br(n) for n in BIN_NAMES])
         return B
 
     def batches(self, maxlen):
@@ -249,6 +460,12 @@ class C15(Prop):
         chunks("cvp-odd", "ucvp odd=[float0] %s %d %d %d", 0, 4)
         for i, b in enumerate(INC_BASES):
             chunks("inc%d" % i, "uinc " + br(b) + " %s %d %d %d", 0, maxlen)
+        # set_inc_list: every configuration string over {a . / :} up to length 6 (quick) / 7 (thorough)
+        for ln in range(0, maxlen - 1):
+            tot = 4 ** ln
+            for frm in range(0, tot, CHUNK):
+                out.append(E.Case("x-il-%d-%d" % (ln, frm), ["uil a./: %d %d %d" % (ln, frm, min(CHUNK, tot - frm))],
+                                  {"origin": "exhaustive"}))
         # system level: every include name over {a . /} up to length 4 from a file in a sub-directory
         names = [""]
         allnames = []
@@ -302,7 +519,22 @@ class C15(Prop):
                 lines.append(pl(pol))
                 for _ in range(12):
                     j = rng.below(10)
-                    if j < 6:
+                    if j < 2:
+                        pth = rng.choice(GD1) if rng.chance(2, 3) else "/" + "/".join(
+                            rng.choice(["d", "a", "aa", "sub", "*", "?", "f*", "*.c", "", "."]) for _ in range(rng.range(1, 3)))
+                        if pth.strip("/.*?") == "":
+                            pth = "/d/*"
+                        lines.append("fx %s %s" % (rng.choice(EFUN1X), br(pth)))
+                    elif j < 3 and rng.chance(1, 2):
+                        n_ = rng.choice([255, 256, 1024, 1025, 1280, 1281, rng.range(200, 2500)])
+                        pth = pad(n_, rng.choice(["/d", "/a", "/d/sub"]), rng.choice(["sub", "sub/", "f.txt", "new", "*", "a/"]))
+                        if rng.chance(1, 2):
+                            lines.append("fx %s %s" % (rng.choice(EFUN1 + EFUN1X), br(pth)))
+                        else:
+                            q_ = self.rand_sys_path(rng)
+                            a_, b_ = (pth, q_) if rng.chance(1, 2) else (q_, pth)
+                            lines.append("fx %s %s %s" % (rng.choice(EFUN2), br(a_), br(b_)))
+                    elif j < 6:
                         lines.append("fx %s %s" % (rng.choice(EFUN1), br(self.rand_sys_path(rng))))
                     elif j < 9:
                         lines.append("fx %s %s %s" % (rng.choice(EFUN2 + ["ed"]), br(self.rand_sys_path(rng)), br(self.rand_sys_path(rng))))
@@ -324,6 +556,8 @@ class C15(Prop):
                             cs.append("a:t%d" % rng.below(9))
                         elif c in ("x", "q", "Q") or rng.chance(1, 2):
                             cs.append(c)
+                        elif rng.chance(1, 8):
+                            cs.append(c + ":" + pad(rng.choice([254, 255, 256, 257, rng.range(200, 400)]), "/d", rng.choice(["out", "f.txt", "sub/n"])))
                         else:
                             cs.append(c + ":" + rng.choice(names))
                     lines.append("es %s %s" % (br(rng.choice(names)), ",".join(cs)))
@@ -335,8 +569,20 @@ class C15(Prop):
                         nm = "/" + nm
                     if nm in ("x.c", "t/x.c", "/t/x.c", "./x.c") or nm.endswith("x.c"):
                         continue
-                    lines.append("inc %s %s" % (br(rng.choice(["t/x.c", "t/u/x.c"])), br(nm)))
+                    kind = rng.choice(["inc", "inc", "inca", "incm"])
+                    if kind == "inca" and "//" in nm:     # `#include <a//b>`: the lexer takes `//` for a comment
+                        kind = "inc"
+                    lines.append("%s %s %s" % (kind, br(rng.choice(["t/x.c", "t/u/x.c"])), br(nm)))
             out.append(E.Case("g%d" % i, lines, {"origin": "generated"}))
+        for i in range(max(1, n // 40)):     # saved binaries: random object names
+            names = []
+            for _ in range(8):
+                nm = "/".join(rng.choice(["d", "a", "aa", "sub", "new", "b", "b.c", "..", ".", "", "x#y", "..b", "obj"])
+                              for _ in range(rng.range(1, 4)))
+                if nm.strip("/.") == "":
+                    nm = "d/b"
+                names.append(("/" if rng.chance(3, 4) else "") + nm)
+            out.append(E.Case("gb%d" % i, ["binaries on"] + ["ldb " + br(x) for x in names], {"origin": "generated"}))
         return out
 
     def mutate_around(self, case, rng, n):
